@@ -145,3 +145,35 @@ def emit_skeleton(raw_marked, gen_fn, log):
     name = 'emit_' + gen_fn
     text = ('pub fn %s(world_data: DataWorld, query_data: &EmitQueryData, emitted: &mut Ghost<Seq<int>>) -> syn::Result<TokenStream>\n{\n%s\n}\n' % (name, body))
     return name, text
+
+
+def zip_slice(raw_marked, log):
+    """R-zipslice: the tail of `ParseCfgDecorated::parse` (macros/src/parse/cfg.rs) that builds the cfg lookup table, from
+    `let mut predicates = inner.collect_all_cfg_predicates();` to the end of the function, as the body of an inherent method
+    `fn gv_zip(inner: T, states: Vec<bool>) -> syn::Result<Self>` (what precedes is syn ParseStream code that produces `states` and
+    `inner`).  R-zip: `for (p, s) in X.drain(..).zip(Y) {` -> index loop over min(len X, len Y) binding `p = &x[i]`, `s = y[i]`
+    (zip pairs the i-th elements and stops at the shorter sequence; elements are bound by reference / copy: a body that needs
+    ownership of `p` would no longer compile, exit 2)."""
+    msk = rs.mask(raw_marked)
+    fns = [f for f in find_fns(raw_marked, msk, find_blocks(raw_marked, msk)) if f.name == 'parse' and f.has_body
+           and f.block is not None and 'ParseCfgDecorated' in f.block.key]
+    if len(fns) != 1:
+        raise ExtractError('R-zipslice: expected exactly one ParseCfgDecorated::parse, found %d' % len(fns))
+    f = fns[0]
+    m = re.compile(r'let\s+mut\s+predicates\s*=\s*inner\s*\.\s*collect_all_cfg_predicates\s*\(\s*\)\s*;').search(msk, f.body_open, f.body_close)
+    if not m:
+        raise ExtractError('R-zipslice: `let mut predicates = inner.collect_all_cfg_predicates();` not found')
+    ls = rs.line_start(raw_marked, m.start())
+    tail = raw_marked[ls:f.body_close]
+    tm = rs.mask(tail)
+    z = re.search(r'for\s*\(\s*(\w+)\s*,\s*(\w+)\s*\)\s*in\s*(\w+)\s*\.\s*drain\s*\(\s*\.\.\s*\)\s*\.\s*zip\s*\(\s*(\w+)\s*\)\s*\{', tm)
+    if not z:
+        raise ExtractError('R-zip: `for (a, b) in X.drain(..).zip(Y) {` not found in the tail of ParseCfgDecorated::parse')
+    p, s, x, y = z.groups()
+    new = ('let gv_zx = gecs_drain_all(&mut %s); let gv_zy = %s; let gv_zn = if gv_zx.len() < gv_zy.len() { gv_zx.len() } else { gv_zy.len() };\n'
+           'for gv_zi in 0..gv_zn { let %s = &gv_zx[gv_zi]; let %s = gv_zy[gv_zi];' % (x, y, p, s))
+    tail = tail[:z.start()] + new + tail[z.end():]
+    log.rule('R-zipslice', 'tail of ParseCfgDecorated::parse')
+    log.rule('R-zip', 'for (%s, %s) in %s.drain(..).zip(%s)' % (p, s, x, y))
+    return ('impl<T: HasCfgPredicates> ParseCfgDecorated<T> {\n'
+            'pub fn gv_zip(inner: T, states: Vec<bool>, collected: &mut Ghost<Seq<TokenStream>>) -> syn::Result<Self>\n{\n' + tail + '\n}\n}\n')
